@@ -7,5 +7,10 @@ func init() {
 			Stubs:       []string{"the peer is a harness NetworkBlockFetcher: honest answers are produced by the real BlockFetcherHandler.fetchBlocks over the real chain (at most 2 blocks per answer); misbehaviour = error / unparsable bytes / forged block with the right parent / ancestors out of order / real block followed by a forged one", "block parser, block store, chain index and node sampler are harness implementations; block IDs are the SHA-256 of the block bytes", "time.Sleep is a scheduling point; timeouts never fire (context model)"},
 			Assumptions: []string{"the genesis block is older than the validity window (hypersdk's genesis header timestamp lies years in the past); block timestamps increase"},
 			Outside:     []string{"chains other than 6 blocks 10 ms apart with windows {15, 25, 35 (, 45)} ms; more than badAnswers misbehaving answers; more than one block accepted during backfill", "real p2p transport and timeouts", "schedules beyond the preemption bound"}},
+		{Name: "cancel", Pkg: "internal/validitywindow", Files: []string{"validitywindow/c22_backfill.go"}, Entry: "VerifC22Cancel", Sched: true, Preempt: [2]int{2, 3},
+			Reach:       []string{"cancelled-incomplete"},
+			Stubs:       []string{"the peer is a harness NetworkBlockFetcher: honest answers are produced by the real BlockFetcherHandler.fetchBlocks over the real chain (at most 2 blocks per answer); misbehaviour = error / unparsable bytes / forged block with the right parent / ancestors out of order / real block followed by a forged one", "block parser, block store, chain index and node sampler are harness implementations; block IDs are the SHA-256 of the block bytes", "time.Sleep is a scheduling point; timeouts never fire (context model)"},
+			Assumptions: []string{"the genesis block is older than the validity window (hypersdk's genesis header timestamp lies years in the past); block timestamps increase"},
+			Outside:     []string{"chains other than 6 blocks 10 ms apart with windows {15, 25, 35 (, 45)} ms; more than badAnswers misbehaving answers; more than one block accepted during backfill", "real p2p transport and timeouts", "schedules beyond the preemption bound"}},
 	}})
 }
